@@ -53,7 +53,7 @@ WAVE2 = {  # /tmp/seed2/<dir>/SEED/<k> -> (property, seeded name)
 }
 
 if __name__ == "__main__":
-    if sys.argv[1] in ("wave3", "wave4", "wave5", "wave6", "wave7", "wave8", "wave9", "wave10", "wave11", "wave12", "wave13", "wave14", "wave15"):
+    if sys.argv[1] in ("wave3", "wave4", "wave5", "wave6", "wave7", "wave8", "wave9", "wave10", "wave11", "wave12", "wave13", "wave14", "wave15", "wave16"):
         g = sys.argv[2]
         wv = sys.argv[1][4:]
         imported = False
